@@ -49,6 +49,7 @@ def run(tier):
     inputs += sweep.inputs_classes(ck, 6, 1 if quick else 3, 1 if quick else 2, rng)
     inputs = [i for i in inputs if i["graph"] is None]  # the locally rotated members (composition with a layer is what is new here)
     jobs = sweep.expand_jobs(inputs, ["prep", "readout", "compress"], rng)
+    jobs += sweep.expand_jobs(sweep.special_programs(ck, ck.seed, quick), ["compress"], rng)      # swap-only circuits; already tailored circuits with swaps
     # one Stabilizer / circuit object passed to every connectivity and API in turn (what it was asked before must not matter)
     traces, verdicts = sweep.run_jobs(ck, L, jobs, "api", sweeps=sweep.conn_sweep_jobs(inputs, ["prep", "readout", "compress"], rng))
     sweep.report(ck, "C02", traces, verdicts, CLAUSES | {"raised"}, trivial=lambda t: not any(g[2] >= 0 for g in t["gates"]))
